@@ -310,3 +310,14 @@ Proof.
   constructor; [|apply IH]. repeat split; try assumption.
   destruct r as [[d fl]|e| | | |]; try assumption. rewrite filter_good, B3. reflexivity.
 Qed.
+
+(* retries disabled (query_timeout = None): exactly one transmission, at the start of the call, in every
+   world — whatever arrives, however late the timers *)
+Theorem no_retries_when_disabled std smol q lifetime jit proc eps queue s r t rest :
+  (forall x, jit x <= eps) -> (forall x, proc x <= eps) -> 0 < lifetime ->
+  exchange_of std smol q lifetime None jit proc queue = (s, r, t, rest) -> s = [tq_start q].
+Proof.
+  intros Hj Hp Hl H.
+  destruct (exchange_with_slack std smol q lifetime None jit proc eps queue s r t rest Hj Hp I Hl H) as (_ & _ & _ & [s' [-> Hg]] & _ & _).
+  destruct s' as [|y s'']; [reflexivity|]. cbn [gaps] in Hg. unfold tmo in Hg. lia.
+Qed.
